@@ -140,7 +140,7 @@ Ltac atom_step :=
   first
     [ assumption
     | solve [auto with atomdb]
-    | apply atom_bind; [ | intros ]
+    | match goal with |- atom (bindM _ _) => apply atom_bind; [ | intros ] end
     | match goal with |- atom (match ?x with _ => _ end) => destruct x end ].
 Ltac atom_tac0 := repeat atom_step.
 
@@ -280,4 +280,64 @@ Proof.
              destruct c; [ injection H as <-; first [ apply atom_read | atom_tac ] | ]
          end.
   discriminate.
+Qed.
+
+(* ---------- computations built from atoms and ticks ---------- *)
+Inductive Built : forall {A : Type}, M A -> Prop :=
+| B_atom A (m : M A) : atom m -> Built m
+| B_tick : Built tick
+| B_bind A B (m : M A) (f : A -> M B) : Built m -> (forall a, Built (f a)) -> Built (bindM m f)
+| B_ext A (m m' : M A) : (forall s, m s = m' s) -> Built m -> Built m'.
+
+Ltac built_step :=
+  first
+    [ assumption
+    | match goal with H : forall _, _ |- Built _ => apply H end
+    | apply B_tick
+    | apply B_atom; solve [auto with atomdb]
+    | match goal with |- Built (bindM _ _) => apply B_bind; [ | intros ] end
+    | match goal with |- Built (match ?x with _ => _ end) => destruct x end
+    | apply B_atom; solve [atom_tac] ].
+Ltac built_tac := repeat built_step.
+
+Definition BuiltAll (n : nat) : Prop :=
+  (forall P e x, Built (eval_expr n P e x)) /\
+  (forall P e l, Built (eval_exprs n P e l)) /\
+  (forall P e name args, Built (eval_call n P e name args)) /\
+  (forall P e s, Built (exec_stmt n P e s)) /\
+  (forall P e l, Built (exec_stmts n P e l)) /\
+  (forall P e l, Built (exec_block n P e l)) /\
+  (forall P e c body, Built (exec_cond n P e c body)) /\
+  (forall P e c body, Built (exec_while n P e c body)) /\
+  (forall P e var rg body, Built (exec_for n P e var rg body)).
+
+Lemma built_all : forall n, BuiltAll n.
+Proof.
+  induction n.
+  - repeat split; intros; apply B_atom; apply atom_fail.
+  - destruct IHn as (IH1 & IH2 & IH3 & IH4 & IH5 & IH6 & IH7 & IH8 & IH9).
+    repeat split; intros.
+    + cbn [eval_expr]. apply B_bind; [apply B_tick|intros _].
+      destruct x; try solve [built_tac].
+      * (* EMap *)
+        apply B_bind; [built_tac|intro d]. apply B_bind; [|intros; built_tac].
+        induction pairs as [|[k a] ps IHps]; simpl; built_tac.
+    + cbn [eval_exprs]. built_tac.
+    + cbn [eval_call]. apply B_bind; [built_tac|intro vals].
+      destruct (str_eqb name n_test); [built_tac|].
+      destruct (builtin name e vals) eqn:Eb.
+      * apply B_atom. exact (atom_builtin _ _ _ _ Eb).
+      * built_tac.
+    + cbn [exec_stmt]. apply B_bind; [apply B_tick|intros _].
+      destruct s; try solve [built_tac].
+      * (* SIf *)
+        revert e. induction conds as [|[c body] cs IHcs]; intro e; simpl; built_tac.
+    + cbn [exec_stmts]. built_tac.
+    + cbn [exec_block]. built_tac.
+    + cbn [exec_cond]. built_tac.
+    + cbn [exec_while]. built_tac.
+    + cbn [exec_for]. apply B_bind; [|intros; built_tac].
+      destruct rg; try solve [built_tac].
+      apply B_bind; [built_tac|intro v]. destruct v; try solve [built_tac].
+      induction todo; simpl; built_tac.
 Qed.
